@@ -79,7 +79,8 @@ class Lens(ScatteringTheory):
                                                          integral_r,
                                                          pol_angle)
 
-        particle_kz = positions[2, 0]  # we assume a fixed z
+        # one phase per detector point: the points need not be at one z
+        particle_kz = positions[2]
         fields *= self._compute_field_phase(particle_kz)
         return fields
 
